@@ -123,10 +123,6 @@ func processQuery(input string, codeGraph *graph.CodeGraph, output string) (stri
 	if err != nil {
 		return "", err
 	}
-	parts := strings.SplitN(input, "WHERE", 2)
-	if len(parts) > 1 {
-		parsedQuery.Expression = strings.SplitN(parts[1], "SELECT", 2)[0]
-	}
 	entities, formattedOutput := graph.QueryEntities(codeGraph, parsedQuery)
 	if output == "json" || output == "sarif" {
 		analytics.ReportEvent(analytics.QueryCommandJSON)
